@@ -7,6 +7,33 @@ change of the generated Lean definitions. Anything outside the supported subset 
 message naming file / function / construct): never guessed, never skipped.
 
 usage: rust2lean.py [--repo DIR] [--out FILE] [--only name,name] [--debug-assertions] [--report]
+
+Front end (tools/rust2lean_lib): tokenizer, item scanner (bodies of functions nobody asks for are not parsed),
+recursive-descent parser, a light type inference (enough to resolve methods, `.0`, casts, indexing), and a
+translator that first tries a PURE definition (expression-bodied function without panics) and otherwise emits a
+`do` block in `B.Outcome`. Callees are translated on demand (transitive closure of the TARGETS list).
+
+SUPPORTED: fn items with generics / where clauses whose bounds are `Fn(..) -> ..`; `&self`/`&mut self`/`&mut` params
+(returned next to the result); inner `fn` (fuel-bounded recursion: `match fuel with | 0 => panic | fuel+1 => ..`);
+local and crate `struct`s with named fields (as products); associated types (`Self::Item`); `let`, `let mut`,
+`let .. else`, assignment and compound assignment to variables / fields / indices / `*deref`; literals, paths, calls,
+method calls, closures without effects, field and tuple-field access, indexing (`Vec`, slices, `BddValuation`,
+`BddPartialValuation`), `slice[a..]`, tuples, struct literals, blocks, `unsafe` blocks, `if`, `if let`, `match`
+(tuple / `Some` / `None` / `Ok` / `Err` / newtype / literal / struct patterns), `while`, `while let` (incl. `x.pop()`),
+`loop`, `for` over ranges / slices / materialised iterator chains (`iter into_iter cloned skip rev enumerate map
+filter filter_map`) / `iter_mut()[.skip(k)]` (write-back loop), `return`, `break`, `continue`, `?`, `as` between
+unsigned integers, `&`/`&mut`/`*` (erased), `panic! unreachable! assert! assert_eq! assert_ne! debug_assert!
+vec! format!`, `std::mem::swap`, `min`/`max`, `Vec`/`HashMap`/`HashSet`/`Option`/`Result` methods listed in
+rust2lean_lib/methods.py, `checked_add`, `u16::try_from`, `usize::from`, `BigInt::from`.
+REJECTED (exit 3): floats and signed integers, strings other than literals / `format!` templates, raw / byte
+strings, `char`, loop labels, `break` with value, let-chains, match guards, or-/range-/`@`-patterns, closures whose
+body can panic or mutate, function values that are not pure, `dyn`/`impl Trait` other than one `Fn` bound, traits,
+enums, const generics, mutual recursion, functions returning `&mut` (e.g. `mut_cell`: its callers `set_value` /
+`unset_value` / `IndexMut` are in the shim), iteration over `HashMap`/`HashSet`, `HashMap::insert` whose result
+is used, `break`/`continue` inside an `iter_mut` loop, unary minus, BigInt subtraction, unknown macros / methods.
+SEMANTIC CONVENTIONS: integers are `Nat`; `a - b` panics on underflow; `as u16`/`as u32` truncate; `+`, `*`, `<<` are
+not range-checked; `debug_assert!` is a comment unless --debug-assertions (the harness is a release build);
+`format!` keeps only its template (messages are never compared); hash-map capacity / hasher are dropped.
 """
 import os
 import sys
@@ -61,6 +88,8 @@ TARGETS = [
     ('src/_impl_bdd/_impl_relation_ops.rs', 'Bdd', 'var_restrict'),
     ('src/_impl_bdd/_impl_util.rs', 'Bdd', 'mk_literal'),
     ('src/_impl_bdd_path_iterator.rs', 'BddPathIterator', 'new'),
+    ('src/_impl_iterator_valuations_of_clause.rs', 'ValuationsOfClauseIterator', 'new'),
+    ('src/_impl_iterator_valuations_of_clause.rs', 'ValuationsOfClauseIterator', 'next'),
 ]
 
 HEADER = '''import BddVerif.Gen.RustShim
@@ -78,6 +107,8 @@ set_option linter.unusedVariables false
 set_option linter.constructorNameAsVariable false
 namespace B.Gen.Algo
 open B B.Gen
+/- same operations as the `Monad Outcome` instance of Model/Outcome.lean, but inlined by the compiler (see RustShim) -/
+attribute [local instance 10000] Rust.monadOutcomeInline
 '''
 
 
